@@ -314,7 +314,8 @@ class BodyMacroGen:
         if nonly:
             self.feats.add("macro_local_bound_only_through_nested_invocation")
         return dict(name=self.k, params=[[i, m != "e"] for i, m in enumerate(self.sig)], body=self.items), \
-            dict(kind="body", sig=self.sig, locals=sorted({v[1] for v in _idents_items(self.items)}), nested_only=nonly, feats=self.feats)
+            dict(kind="body", sig=self.sig, locals=sorted({v[1] for v in _idents_items(self.items)}), nested_only=nonly,
+                 disj_only=disj_only_locals(self.items), feats=self.feats)
 
 
 def head_macro(rng, k, lower):
@@ -417,6 +418,15 @@ def nested_only_locals(items):
     return sorted(passed - direct)
 
 
+def disj_only_locals(items):
+    """spellings of the identifiers of a macro body whose binding occurrences all lie inside disjunctions of the body: after
+    the instantiation they sit in the list of bound variables of ONE item (the disjunction) together with whatever the call
+    site passes for the parameters used there"""
+    inside = {v[1] for it in items if it[0] == "disj" for v in _bound_direct([it])}
+    outside = {v[1] for it in items if it[0] != "disj" for v in _bound_direct([it])}
+    return sorted(inside - outside)
+
+
 class RuleGen:
     def __init__(self, rng, sigs):
         self.rng, self.sigs = rng, sigs
@@ -429,7 +439,7 @@ class RuleGen:
         """names of the locals of the macros invoked so far / available: the adversarial spelling"""
         names = []
         for j, s in self.sigs.items():
-            names += s["locals"] + 3 * s.get("nested_only", [])
+            names += s["locals"] + 3 * s.get("nested_only", []) + 3 * s.get("disj_only", [])
         return names or POOL
 
     def new_name(self, unused=False):
